@@ -179,6 +179,11 @@ type State struct {
 	LastNow   *smt.Term
 	NoSched   bool
 	NeedSched bool
+	narrowCache map[int]int
+	facts    map[int]bool
+	factsVer int
+	simpMemo map[int]*smt.Term
+	simpVer  int
 }
 
 type dec struct {
@@ -235,6 +240,13 @@ func (st *State) fork() *State {
 	n.Trace = append([]string(nil), st.Trace...)
 	n.schedHist = append([]int(nil), st.schedHist...)
 	n.Model = st.Model
+	if st.facts != nil {
+		n.facts = make(map[int]bool, len(st.facts))
+		for k, v := range st.facts {
+			n.facts[k] = v
+		}
+		n.factsVer = st.factsVer
+	}
 	return n
 }
 
